@@ -200,6 +200,9 @@ type ElectrumFacade struct {
 	seq  int64
 	// Answers as for the rpc facade.
 	Answers []Answer
+	// hdr holds the chain version of every header notification queued for the first subscriber, in order: a
+	// subscriber that lags behind is still looking at the chain of the header it is processing
+	hdr []int64
 }
 
 func (e *ElectrumFacade) stamp(call string, v int64) {
@@ -222,6 +225,12 @@ func (e *ElectrumFacade) RecentVersion(n int) (int64, int) {
 			lo = e.Answers[i].Version
 		}
 	}
+	if len(e.subs) > 0 {
+		// the header the subscriber is working on now = the last one it took out of its queue
+		if idx := len(e.hdr) - len(e.subs[0]) - 1; idx >= 0 && idx < len(e.hdr) && e.hdr[idx] < lo {
+			lo = e.hdr[idx]
+		}
+	}
 	return lo, len(e.Answers)
 }
 
@@ -230,14 +239,20 @@ func (e *ElectrumFacade) Notify(height int32) {
 	e.mu.Lock()
 	subs := append([]chan *goelectrum.SubscribeHeadersResult(nil), e.subs...)
 	e.mu.Unlock()
-	e.stamp("header", e.C.VersionNow())
-	for _, s := range subs {
+	v := e.C.VersionNow()
+	e.stamp("header", v)
+	for i, s := range subs {
 		// never block the scenario on a subscriber that stopped reading (killed incarnation): with 64
 		// notifications already queued this one is dropped, a later tip supersedes it
+		e.mu.Lock()
 		select {
 		case s <- &goelectrum.SubscribeHeadersResult{Height: height}:
+			if i == 0 {
+				e.hdr = append(e.hdr, v)
+			}
 		default:
 		}
+		e.mu.Unlock()
 	}
 }
 
@@ -247,9 +262,16 @@ func (e *ElectrumFacade) NotifyTip() { e.Notify(int32(e.C.Height() + e.C.HeightO
 func (e *ElectrumFacade) SubscribeHeaders(ctx context.Context) (<-chan *goelectrum.SubscribeHeadersResult, error) {
 	ch := make(chan *goelectrum.SubscribeHeadersResult, 64)
 	e.mu.Lock()
+	first := len(e.subs) == 0
 	e.subs = append(e.subs, ch)
 	e.mu.Unlock()
+	v := e.C.VersionNow()
 	ch <- &goelectrum.SubscribeHeadersResult{Height: int32(e.C.Height() + e.C.HeightOffset)}
+	if first {
+		e.mu.Lock()
+		e.hdr = append(e.hdr, v)
+		e.mu.Unlock()
+	}
 	return ch, nil
 }
 
